@@ -196,13 +196,15 @@ impl<'t, 'c> Ser<'t, 'c> {
         let pad = self.t.choose(4);
         let unit = *self.t.pick(UNITS);
         let reps = 1 + self.t.choose(200);
-        let mut s = String::with_capacity(pad + unit.len() * reps);
+        // one run in sixteen is much longer: beyond 4 KiB, 8 KiB (the default BufReader capacity) or 64 KiB
+        let (reps, cap) = if self.t.chance(16) { let c = *self.t.pick(&[4200usize, 8300, 66000]); (c, c) } else { (reps, 1500) };
+        let mut s = String::with_capacity(pad + unit.len() * reps.min(cap));
         for _ in 0..pad {
             s.push('p');
         }
         for _ in 0..reps {
             s.push_str(unit);
-            if s.len() > 1500 {
+            if s.len() > cap {
                 break;
             }
         }
